@@ -362,7 +362,8 @@ def shards(tier, seed):
     # (a) fragment sequences with full graphs
     n_graph = 2 if tier == "quick" else 3
     for fi in range(len(FRAGS)):
-        sh.append((tier, "frag-graph", n_graph, fi))
+        for part in range(4):
+            sh.append((tier, "frag-graph", n_graph, fi, part))
     for fi in range(len(FRAGS)):
         sh.append((tier, "frag-feed", n_graph + 1, fi))
     cases = list(trunc_cases(tier))
@@ -408,9 +409,11 @@ def run_shard(shard):
             for x in EXTRA:
                 seqs.append((FRAGS[fi], x))
                 seqs.append((x, FRAGS[fi]))
-                seqs.append((x, FRAGS[fi], V1))
             if fi == 0:
                 seqs += [(x,) for x in EXTRA] + [(x, y) for x in EXTRA for y in EXTRA]
+        if what == "frag-graph":
+            part = shard[4]
+            seqs = [q for k, q in enumerate(sorted(seqs, key=lambda q: -sum(len(x) for x in q))) if k % 4 == part]
         if True:
             for frs in seqs:
                 S, modeA, numbered = classify_stream(frs)
@@ -462,7 +465,7 @@ def run_shard(shard):
                         res["violations"] = list(sig.values())
                         res["capped"] = 1
                         return res  # the finding is recorded; every further graph would burn the watchdog again
-        if fi == 0 and what == "frag-graph":
+        if fi == 0 and what == "frag-graph" and shard[4] == 0:
             res["samples"].append({"fragment_sequence": [FRAGS[0], FRAGS[3]], "thresholds": [t for t, _ in THRESHOLDS]})
     else:
         s, nshard = shard[2], shard[3]
@@ -478,7 +481,7 @@ def run_shard(shard):
                 chk = make_check_b(S, tname, T, numbered, len(corrupt))
                 res["streams"] += 1
                 res["modeB"] += 1
-                if Tgen == 64 and (tier == "thorough" or ci % 8 == 0):
+                if Tgen == 64 and (tier == "thorough" or ci % 12 == 0):
                     r = explore_b(S, T, chk, "graph")
                     res["graphs"] += 1
                 else:
